@@ -39,11 +39,79 @@ MemParse(T, bs) ==
     [] T.k = "range" -> Chunks(T.elem, bs, RangeArity(T.rk))
     [] T.k = "struct" -> ParseFields(T.fields, bs, 1, 0)
     [] T.k = "enum" ->
-         LET tag == NEVal(SubSeq(bs, 1, 4))
+         \* (a damaged tag word can be anything: only small ones are interpreted numerically)
+         LET tag == IF bs[3] = 0 /\ bs[4] = 0 THEN NEVal(SubSeq(bs, 1, 2)) ELSE 65536
          IN <<tag>> \o (IF EnumHasPayload(T) /\ tag < Len(T.variants)
                         THEN ParseFields(T.variants[tag + 1].fields,
                                          SubSeq(bs, EnumPayloadOff(T) + 1, Len(bs)), 1, 0)
                         ELSE <<>>)
+
+(* Zero-copy data is handed out (borrowed, or copied into a vector) as typed   *)
+(* memory without looking at it.  ValidMem says whether the bytes are a value  *)
+(* of the type at all: a bool is 0 or 1, a char a scalar value, a NonZero not  *)
+(* zero, an enum tag one of its variants.  If not, the code has produced an    *)
+(* invalid value: undefined behaviour (outcome "ub"; beyond the listed         *)
+(* properties, which only speak of damaged headers, tags, cuts and placement). *)
+IsNonZeroName0(n) == n \in {"NonZeroU8", "NonZeroU16", "NonZeroU32", "NonZeroU64", "NonZeroU128",
+   "NonZeroUsize", "NonZeroI8", "NonZeroI16", "NonZeroI32", "NonZeroI64", "NonZeroI128", "NonZeroIsize"}
+CharOk0(bs) ==
+  LET b == IF Little THEN bs ELSE Rev(bs)
+  IN b[4] = 0 /\ b[3] <= 16 /\ ~(b[3] = 0 /\ b[2] >= 216 /\ b[2] <= 223)
+Known(bs) == \A i \in 1..Len(bs) : bs[i] <= 255
+RECURSIVE ValidMem(_, _), ValidFields(_, _, _, _)
+ValidFields(fields, bs, i, off) ==
+  IF i > Len(fields) THEN TRUE
+  ELSE LET t == fields[i].ty
+           start == RoundUp(off, AlignOf(t))
+       IN ValidMem(t, SubSeq(bs, start + 1, start + SizeOf(t))) /\ ValidFields(fields, bs, i + 1, start + SizeOf(t))
+ValidMem(T, bs) ==
+  CASE T.k = "prim" ->
+         IF ~Known(bs) THEN TRUE
+         ELSE CASE T.name = "bool" -> bs[1] \in {0, 1}
+                [] T.name = "char" -> CharOk0(bs)
+                [] IsNonZeroName0(T.name) -> \E i \in 1..Len(bs) : bs[i] # 0
+                [] OTHER -> TRUE
+    [] T.k \in {"array", "tuple"} ->
+         \A i \in 1..T.n : ValidMem(T.elem, SubSeq(bs, (i - 1) * SizeOf(T.elem) + 1, i * SizeOf(T.elem)))
+    [] T.k = "range" ->
+         \A i \in 1..RangeArity(T.rk) : ValidMem(T.elem, SubSeq(bs, (i - 1) * SizeOf(T.elem) + 1, i * SizeOf(T.elem)))
+    [] T.k = "struct" -> ValidFields(T.fields, bs, 1, 0)
+    [] T.k = "enum" ->
+         LET tw == SubSeq(bs, 1, 4)
+         IN IF ~Known(tw) THEN TRUE
+            ELSE /\ tw[3] = 0 /\ tw[4] = 0 /\ NEVal(SubSeq(tw, 1, 2)) < Len(T.variants)
+                 /\ (EnumHasPayload(T) =>
+                        ValidFields(T.variants[NEVal(SubSeq(tw, 1, 2)) + 1].fields,
+                                    SubSeq(bs, EnumPayloadOff(T) + 1, Len(bs)), 1, 0))
+    [] OTHER -> TRUE
+\* size_of::<T>() = 0 in Rust (zero-copy types: their size; deep-copy types: arrays of length 0 and structs of such)
+RECURSIVE RustZst(_)
+RustZst(T) ==
+  CASE T.k \in {"unit", "rangefull", "phantom"} -> TRUE
+    [] T.k = "array" -> T.n = 0 \/ RustZst(T.elem)
+    [] T.k = "tuple" -> RustZst(T.elem)
+    [] T.k = "struct" -> \A i \in 1..Len(T.fields) : RustZst(T.fields[i].ty)
+    [] OTHER -> FALSE
+ValidItems(E, bs, n) == \A i \in 1..n : ValidMem(E, SubSeq(bs, (i - 1) * SizeOf(E) + 1, i * SizeOf(E)))
+
+\* UTF-8 well-formedness (Unicode table 3-7), for the bytes a string is made of
+RECURSIVE Utf8Ok(_)
+Utf8Ok(bs) ==
+  IF bs = <<>> THEN TRUE
+  ELSE LET a == bs[1]
+           n == Len(bs)
+           cont(i) == i <= n /\ bs[i] >= 128 /\ bs[i] <= 191
+       IN CASE a <= 127 \/ a > 255 -> Utf8Ok(Tail(bs))     \* (a symbolic byte stands for an ASCII character of a type name)
+            [] a >= 194 /\ a <= 223 -> cont(2) /\ Utf8Ok(SubSeq(bs, 3, n))
+            [] a >= 224 /\ a <= 239 ->
+                 /\ cont(2) /\ cont(3)
+                 /\ (a = 224 => bs[2] >= 160) /\ (a = 237 => bs[2] <= 159)
+                 /\ Utf8Ok(SubSeq(bs, 4, n))
+            [] a >= 240 /\ a <= 244 ->
+                 /\ cont(2) /\ cont(3) /\ cont(4)
+                 /\ (a = 240 => bs[2] >= 144) /\ (a = 244 => bs[2] <= 143)
+                 /\ Utf8Ok(SubSeq(bs, 5, n))
+            [] OTHER -> FALSE
 
 ---------------------------------------------------------------------------
 VARIABLES
@@ -218,7 +286,15 @@ StepR ==
                ELSE /\ Cont(<<FAlign(1, m), FBlock(U8, WordVal(Bytes), m, "str")>>)
                     /\ UNCHANGED <<vals, rstatus, rdetail, allocs>>
           [] T.k \in {"vec", "boxslice"} ->
-               IF ~SmallWord(Bytes) THEN RFail("panic", <<"capacity">>) /\ UNCHANGED <<vals, rstack, allocs>>
+               \* a damaged length word of 2^24 and more.  Items with a size: Vec::with_capacity panics / fails to allocate
+               \* before anything is checked.  Zero-sized zero-copy items: the "vector" of that many items is returned.
+               \* Zero-sized deep-copy items (they take no byte of the stream either): the item loop never ends.
+               IF ~SmallWord(Bytes)
+               THEN (IF RustZst(T.elem)
+                     THEN (IF IsZC(T.elem) THEN RFail("ok-huge", <<"zero-sized items">>)
+                           ELSE RFail("hang", <<"item loop over items that take no byte">>))
+                     ELSE RFail("panic", <<"capacity">>))
+                    /\ UNCHANGED <<vals, rstack, allocs>>
                ELSE LET len == WordVal(Bytes)
                     IN IF IsZC(T.elem)
                        THEN /\ Cont(<<FAlign(Unit(T.elem), m), FBlock(T.elem, len, m, "seq")>>)
@@ -310,6 +386,12 @@ StepBlock ==
                 [] OTHER -> items[1]
      IN IF Top.m = "eps" /\ Top.s = "arr" /\ sz = 0 /\ BugArray0
         THEN RFail("panic", <<"index 0 of empty">>) /\ UNCHANGED <<vals, rstack, borrows, allocs>>
+        ELSE IF Top.s = "str" /\ ~Utf8Ok(Bytes)
+        THEN \* String::from_utf8(..).unwrap() panics; the ε-copy reader transmutes the bytes to &str unchecked
+             /\ (IF Top.m = "eps" THEN RFail("ub", <<"str">>) ELSE RFail("panic", <<"utf8">>))
+             /\ UNCHANGED <<vals, rstack, borrows, allocs>>
+        ELSE IF Top.s # "str" /\ ~(IF Top.s = "seq" THEN ValidItems(E, Bytes, c) ELSE ValidMem(E, Bytes))
+        THEN RFail("ub", <<"invalid value">>) /\ UNCHANGED <<vals, rstack, borrows, allocs>>
         ELSE /\ PushVal(v) /\ Cont(<<>>)
              /\ IF Top.m = "eps" /\ Top.s \in {"one", "arr"} /\ sz = 0
                 THEN UNCHANGED <<borrows, allocs>>   \* a reference to a zero-sized value borrows nothing
